@@ -2,7 +2,7 @@
 # seed_verify.sh <seed-id> <check-id> [cmd-dir] [tier]: confirm an independently written property-breaking change
 # in its scratch worktree (/tmp/seed-<id>), run our check against it, store everything under /verif/seeded/<id>/.
 sid="$1"; cid="$2"; cmd="${3:-./cmd/vmc}"; tier="${4:-quick}"
-wt=/tmp/seed-$sid; out=/tmp/seed-$sid-out; dst=/verif/seeded/$sid
+pre="${SEED_PREFIX:-seed}"; wt=/tmp/$pre-$sid; out=/tmp/$pre-$sid-out; dst=/verif/seeded/$sid${SEED_SUFFIX:-}
 export GOFLAGS=-mod=mod GOPROXY=off GOSUMDB=off GOTOOLCHAIN=local
 [ -f $out/patch.diff ] || { echo "no patch"; exit 2; }
 mkdir -p $dst; cp $out/patch.diff $out/meta.json $out/demo_cmd.txt $dst/ 2>/dev/null; cp $out/*_test.go $dst/ 2>/dev/null
